@@ -170,6 +170,23 @@ CHECKS = {
             '"one reversal of exactly that width" relation; 8-bit accesses and bulk copies must be identical.',
             'No big-endian host/emulator exists here: the property is decided in the forced-configuration frame it names.',
             'DESIGN.md section 7 C19'),
+    'C17': ('F4 vsched (c/vsched.c: linker-interposed deterministic scheduler) + c/sched_harness.c + linearizable model in vf/sched.py',
+            'schedule-as-input PBT: generated per-thread wait/notify/store programs x generated decision strings (next thread, '
+            'spurious wake-ups, signalled waiter, timeout firing) executed deterministically under --wrap=pthread_* interposition; '
+            'oracle = linearizable model at the mutex acquisition; programs and decision strings are shrunk',
+            'The harness owns the schedule: every lock/unlock/wait/signal of futex.c and the runtime header is a scheduling point '
+            'whose outcome comes from the generated decision string, so lost wake-ups, double counts, wrong return codes, waking '
+            'waiters of colliding addresses, deadlocks and stuck waiters are reproducible histories checked against the model; '
+            'the module under test is w2c2-translated with non-zero static offsets; ASan/UBSan build.',
+            'Schedules are sampled (tens of thousands per run), not enumerated; vsched models POSIX condition-variable semantics.',
+            'DESIGN.md section 7 C17, Appendix A'),
+    'C18': ('F4 vsched harness + ThreadSanitizer real-thread harness',
+            'schedule-as-input PBT of concurrent memory.grow/size/load/store programs under vsched with a sequential-order oracle '
+            'at the mutex acquisition, plus real-thread runs under ThreadSanitizer',
+            'Every mutex operation is a scheduling point, so a grower can be preempted between looking at the size and taking '
+            'the lock; successful grows ordered by lock acquisition must form one chain, stay below the maximum and sum to the '
+            'final page count; TSan must report no race between grow, size queries and data accesses.',
+            'Schedules are sampled; races between plain accesses are left to TSan.', 'DESIGN.md section 7 C18, Appendix A'),
 }
 
 NOT_YET = {}
